@@ -433,7 +433,9 @@ pub fn gen_typed(r: &mut Rng, nonce: u64, steps: u32, step_ms: u64) -> EchoReq {
     let pi = gen_i64(r);
     let pb = r.chance(1, 2);
     let pe = *r.pick(&COLORS);
-    let path_segs = vec!["t".to_string(), enc_seg(r, &ps), pi.to_string(), pb.to_string(), pe.to_string()];
+    // one in three goes to the twin declared through the API-trait macro
+    let first = if r.chance(1, 3) { "tt" } else { "t" };
+    let path_segs = vec![first.to_string(), enc_seg(r, &ps), pi.to_string(), pb.to_string(), pe.to_string()];
     // query
     let qs = gen_string(r, 16);
     let qu = if r.chance(1, 2) { Some(gen_u64(r)) } else { None };
@@ -514,7 +516,7 @@ pub fn gen_form(r: &mut Rng, nonce: u64, steps: u32, step_ms: u64) -> EchoReq {
     EchoReq {
         op: "echo_form",
         method: "POST",
-        path_segs: vec!["form".into(), enc_seg(r, &ps)],
+        path_segs: vec![if r.chance(1, 3) { "tform".into() } else { "form".into() }, enc_seg(r, &ps)],
         query: vec![],
         headers: base_headers(r, nonce, steps, step_ms),
         ctype,
